@@ -70,8 +70,11 @@ def tree(depth):
         return t
     # ['dup', op, t]: ONE calendar object used as both operands of op (operand objects may be shared)
     dup = st.tuples(st.just('dup'), st.sampled_from(['+', '-', '*', '|']), sub).map(list)
+    # a number may also stand on the LEFT of an operator (2 * cal, 10 - cal, 16 / cal, 1 | cal)
+    numl = st.tuples(st.just('num'), st.sampled_from([0, 1, 2, 0.5, 8, 3, 10, 16])).map(list)
     return st.one_of(leaf(), st.tuples(st.sampled_from(OPS), sub, right).map(list).map(fix),
-                     st.tuples(st.sampled_from(OPS), sub, right).map(list).map(fix), dup)
+                     st.tuples(st.sampled_from(OPS), sub, right).map(list).map(fix), dup,
+                     st.tuples(st.sampled_from(OPS), numl, sub).map(list))
 
 
 def bounds_of(t):
@@ -102,7 +105,7 @@ def tree_case(draw):
         else:
             d = when(draw, -5, 16)
         dates.append(iso(d))
-    return dict(tree=t, dates=dates)
+    return dict(tree=t, dates=dates, ctor=draw(st.sampled_from(['op', 'op', 'op', 'class-list', 'class-gen'])))
 
 
 # ------------------------------------------------------------------------------ building real calendars
@@ -115,7 +118,7 @@ class Unjudged(Exception):
     pass
 
 
-def build(t):
+def build(t, ctor='op'):
     from pjplan import WeeklyCalendar, DirectCalendar, FixedCalendar
     n = Node()
     n.spec = t
@@ -135,15 +138,23 @@ def build(t):
         n.cal = None
         n.num = t[1]
     elif k == 'dup':
-        sub = build(t[2])
+        sub = build(t[2], ctor)
         n.kids = [sub, sub]
         n.spec = [t[1], t[2], t[2]]
         n.cal = {'+': lambda a: a + a, '-': lambda a: a - a, '*': lambda a: a * a, '|': lambda a: a | a}[t[1]](sub.cal)
     else:
-        l, r = build(t[1]), build(t[2])
+        l, r = build(t[1], ctor), build(t[2], ctor)
         n.kids = [l, r]
         rv = r.num if r.cal is None else r.cal
-        if k == '+':
+        if l.cal is None:
+            lv = l.num
+            n.cal = lv + rv if k == '+' else lv - rv if k == '-' else lv * rv if k == '*' else lv / rv if k == '/' else lv | rv
+        elif ctor != 'op' and r.cal is not None:
+            # the operator classes are public too; their argument is documented as an iterable of calendars
+            import pjplan.calendar as PC
+            cls = {'+': PC.WorkCalendarSum, '-': PC.WorkCalendarSub, '*': PC.WorkCalendarsMul, '/': PC.WorkCalendarDiv, '|': PC.WorkCalendarDisjunction}[k]
+            n.cal = cls([l.cal, r.cal]) if ctor == 'class-list' else cls(c for c in [l.cal, r.cal])
+        elif k == '+':
             n.cal = l.cal + rv
         elif k == '-':
             n.cal = l.cal - rv
@@ -270,7 +281,7 @@ def check_tree(case, exclude=True):
     res = Result()
     t = case['tree']
     try:
-        root = build(t)
+        root = build(t, case.get('ctor') or 'op')
     except Exception as e:
         res.v('C17:valid-definition-raises-%s' % type(e).__name__, dict(tree=t, error=repr(e)[:200]))
         return res
